@@ -352,7 +352,79 @@ def closure_family():
         fail("closure with kwargs: score is not the density with the keyword merged")
 
 
+def mask_algebra_family():
+    """C19: truth tables of Mask | ^ ~ build flatten unmask for concrete, array and jit-traced flags"""
+    import itertools
+    kinds = {"concrete": lambda b: b, "array": lambda b: jnp.array(b)}
+
+    def o(m):
+        if m is None:
+            return (False, None)
+        if isinstance(m, Mask):
+            return (bool(m.primal_flag()), float(m.value))
+        return (True, float(m))
+    for (ka, fa), (kb, fb) in itertools.product(kinds.items(), repeat=2):
+        for a, b in itertools.product((True, False), repeat=2):
+            A, B = Mask(1.0, fa(a)), Mask(2.0, fb(b))
+            for name, got, want in (("|", A | B, (a or b, 1.0 if a else 2.0)), ("^", A ^ B, (a != b, 1.0 if a else 2.0))):
+                g = o(got)
+                if g[0] != want[0] or (want[0] and g[1] != want[1]):
+                    fail(f"Mask {name}: truth table", a=a, b=b, flags=f"{ka},{kb}", got=g, want=want)
+            for name, fn, want in (("|", lambda x, y: (x | y), lambda: (a or b, 1.0 if a else 2.0)),
+                                   ("^", lambda x, y: (x ^ y), lambda: (a != b, 1.0 if a else 2.0))):
+                if ka == "array" or kb == "array":
+                    j = jax.jit(lambda fx, fy: fn(Mask(1.0, fx if ka == "array" else a), Mask(2.0, fy if kb == "array" else b)))(jnp.array(a), jnp.array(b))
+                    g, w = o(j), want()
+                    if g[0] != w[0] or (w[0] and g[1] != w[1]):
+                        fail(f"Mask {name} under jit: truth table", a=a, b=b, flags=f"{ka},{kb}", got=g, want=w)
+            c = Mask(3.0, fa(a))
+            three = Mask.or_n(A, B, Mask(3.0, jnp.array(False)))
+            if o(three)[0] != (a or b):
+                fail("Mask.or_n flag", a=a, b=b)
+    for ka, f in kinds.items():
+        for a in (True, False):
+            m = Mask(1.0, f(a))
+            if o(~m)[0] != (not a):
+                fail("Mask ~", a=a, kind=ka)
+            if float(m.unmask(9.0)) != (1.0 if a else 9.0):
+                fail("Mask.unmask(default)", a=a, kind=ka)
+            nested = Mask.build(Mask(1.0, f(a)), f(True))
+            if o(nested)[0] != a:
+                fail("Mask.build nested flag", a=a, kind=ka)
+            mm = Mask.maybe_mask(1.0, f(a))
+            if o(mm)[0] != a:
+                fail("Mask.maybe_mask", a=a, kind=ka)
+
+
+def selection_family():
+    """C18: bounded-exhaustive Boolean algebra of selections over a small alphabet"""
+    import itertools
+    atoms = [S.all(), S.none(), S.leaf(), S.at["x"], S.at["x", "y"], S.at["y"], S.at[..., "y"], S.at["x", ...]]
+    addrs = [()] + [a for d in (1, 2, 3) for a in itertools.product(("x", "y"), repeat=d)]
+    terms = list(atoms)
+    for a, b in itertools.product(atoms, repeat=2):
+        terms += [a | b, a & b]
+    terms += [~t for t in terms[:40]]
+    import random
+    random.seed(0)
+    pool = terms
+    for a in atoms:
+        for t in random.sample(pool, 40):
+            for op, fn, py in (("|", lambda p, q: p | q, lambda p, q: p or q), ("&", lambda p, q: p & q, lambda p, q: p and q)):
+                r = fn(a, t)
+                for ad in addrs:
+                    if bool(r[ad]) != bool(py(a[ad], t[ad])):
+                        fail(f"Selection {op}: membership is not the Boolean combination", a=a, b=t, addr=ad)
+    for t in pool[:120]:
+        for ad in addrs:
+            if bool((~t)[ad]) != (not bool(t[ad])):
+                fail("Selection ~: membership is not the negation", t=t, addr=ad)
+            if len(ad) >= 2 and bool(t(ad[0])[ad[1:]]) != bool(t[ad]):
+                fail("Selection: S(a)[b] != S[a, b]", t=t, addr=ad)
+
+
 FAMILIES = [
+    (("C19.Mask.", "Mask._or_idx"), mask_algebra_family), (("C18.",), selection_family),
     (("MaskCombinator", "MaskTrace"), mask_family), (("Distribution", "ExactDensity"), distribution_family),
     (("Dimap",), dimap_family), (("Switch",), switch_family), (("Vmap", "repeat"), vmap_family),
     (("Scan", "iterate", "accumulate", "reduce", "masked_iterate"), scan_family),
